@@ -76,6 +76,7 @@ ApplyX(s, c) ==
              IF ~(c.n \in IdsN(s)) \/ s.nlTop[c.n] = None \/ s.instRef[s.nlTop[c.n]] = None THEN Refuse(s)
              ELSE Ok(IF c.op = "uniquify" THEN Uniquify(s, c.n) ELSE Flatten(s, c.n))
       [] c.op = "q" -> [s |-> s, out |-> "ok", ret |-> <<>>]
+      [] c.op = "parse_text" -> Ok(s)     \* the process-wide side is modelled in ParseSession.tla
       [] c.op = "compose2" -> Ok(s)       \* model: writing leaves the netlist alone (the EDIF writer's documented effects aside)
       [] c.op = "compare" -> [s |-> s, out |-> "ok", ret |-> <<Differs(s, c.a, c.b)>>]
       [] c.op \in {"edif_read", "edif_rt", "vlog_read", "vlog_rt", "eblif_read", "eblif_rt"} ->      \* model: a file round trip yields a self-contained copy
